@@ -17,6 +17,12 @@ type Clause struct {
 	Text string
 	File string
 	Line int
+	// Assumed: `assumed ensures E` -- the clause is believed by callers but NOT verified against the body (no
+	// obligation is generated); it is listed as an assumption in the evidence of every unit that uses it and of
+	// the function's own units. For clauses that define a spec symbol by the function itself.
+	// `assumed requires E`: assumed by the unit as any precondition, but not an obligation of its callers
+	// (grammar-shaped arguments, A4); listed as an assumption in the evidence of the callers.
+	Assumed bool
 }
 
 type LoopSpec struct {
@@ -109,7 +115,7 @@ type SpecFile struct {
 	Axioms    []*Axiom
 }
 
-var kwRe = regexp.MustCompile(`^(triggered|purepkg|pure|instantiate|opaque|uses|manual|keeps|macro|ghost|func|requires|ensures|assigns|invariant|loop|behaviour|behavior|spec|axiom|lemma|decreases|inline|trusted|overflow|nopanic|partial|props|panics|assert|rec)\b`)
+var kwRe = regexp.MustCompile(`^(assumed|triggered|purepkg|pure|instantiate|opaque|uses|manual|keeps|macro|ghost|func|requires|ensures|assigns|invariant|loop|behaviour|behavior|spec|axiom|lemma|decreases|inline|trusted|overflow|nopanic|partial|props|panics|assert|rec)\b`)
 
 var readsRe = regexp.MustCompile(`\s+reads\s*\{([^}]*)\}\s*`)
 
@@ -264,9 +270,22 @@ func ParseSpecFile(path, pkg string) (*SpecFile, error) {
 				return nil, fail("instantiate needs Callee.behaviour(args)")
 			}
 			beh.Insts = append(beh.Insts, c)
-		case "requires", "ensures", "assigns", "panics":
+		case "requires", "ensures", "assigns", "panics", "assumed":
 			if err := needBeh(); err != nil {
 				return nil, err
+			}
+			assumed := false
+			if kw == "assumed" {
+				switch {
+				case strings.HasPrefix(rest, "ensures "):
+					rest = strings.TrimSpace(strings.TrimPrefix(rest, "ensures "))
+					kw, assumed = "ensures", true
+				case strings.HasPrefix(rest, "requires "):
+					rest = strings.TrimSpace(strings.TrimPrefix(rest, "requires "))
+					kw, assumed = "requires", true
+				default:
+					return nil, fail("assumed must be followed by ensures or requires")
+				}
 			}
 			if kw == "assigns" {
 				beh.HasAssigns = true
@@ -295,8 +314,10 @@ func ParseSpecFile(path, pkg string) (*SpecFile, error) {
 			}
 			switch kw {
 			case "requires":
+				c.Assumed = assumed
 				beh.Requires = append(beh.Requires, c)
 			case "ensures":
+				c.Assumed = assumed
 				beh.Ensures = append(beh.Ensures, c)
 			case "panics":
 				beh.Panics = append(beh.Panics, c)
